@@ -5,9 +5,9 @@ import (
 	"go/constant"
 )
 
-// EmitRatConst writes an exact rational constant (e.g. `timeThreshold = 9.0 / 8`) as
+// EmitRatConstNamed writes an exact rational constant (e.g. `timeThreshold = 9.0 / 8`) as
 // `def <lean>Num : Int` / `def <lean>Den : Int` (lowest terms, Den > 0).
-func (c *Ctx) EmitRatConst(w *LeanFile, p *Pkg, goName, leanName string) error {
+func (c *Ctx) EmitRatConstNamed(w *LeanFile, p *Pkg, goName, leanName string) error {
 	v, _, pos, ok := p.Const(goName)
 	if !ok {
 		return fmt.Errorf("constant %s not found in %s", goName, p.Dir)
@@ -37,6 +37,6 @@ func init() {
 		if err != nil {
 			return err
 		}
-		return c.EmitRatConst(w, p, "timeThreshold", "timeThreshold")
+		return c.EmitRatConstNamed(w, p, "timeThreshold", "timeThreshold")
 	})
 }
